@@ -1057,3 +1057,87 @@ def bounce_event(e, n, names):
         return not any(fr.ctx.func.name in names
                        for fr in n.frame.chain() if fr.parent is not None)
     return False
+
+
+def expand(g, x, fr, depth=0):
+    """The expression with local names replaced by what they were assigned
+    (once), parameters of inlined helpers by the arguments, calls of inlined
+    helpers with one return by what they return, elements of unpacked tuples
+    by the corresponding element - so that `a, b = self._partition()` ...
+    `b''.join(a)` reads `b''.join(self.lines[:self.EOD])`.  Returns a new
+    AST; names it cannot follow stay as they are."""
+    import ast as _ast
+    import copy as _copy
+    from ..model import walk_own
+    if depth > 10 or x is None:
+        return x
+
+    def defs_of(name, frame):
+        fn = frame.ctx.func
+        out = []
+        for a in walk_own(fn.node):
+            if isinstance(a, _ast.Assign) and len(a.targets) == 1:
+                t = a.targets[0]
+                if isinstance(t, _ast.Name) and t.id == name:
+                    out.append((a, None))
+                elif isinstance(t, (_ast.Tuple, _ast.List)):
+                    for i, el in enumerate(t.elts):
+                        if isinstance(el, _ast.Name) and el.id == name:
+                            out.append((a, i))
+        stores = [y for y in walk_own(fn.node) if isinstance(y, _ast.Name)
+                  and y.id == name and isinstance(y.ctx, (_ast.Store,
+                                                            _ast.Del))]
+        return out if len(stores) == 1 and len(out) == 1 else []
+
+    if isinstance(x, _ast.Name) and isinstance(x.ctx, _ast.Load):
+        fn = fr.ctx.func
+        stored = any(isinstance(y, _ast.Name) and y.id == x.id and
+                     isinstance(y.ctx, (_ast.Store, _ast.Del))
+                     for y in walk_own(fn.node))
+        if x.id in fn.params and not stored and \
+                x.id in getattr(fr, 'arg_exprs', {}):
+            a, af = fr.arg_exprs[x.id]
+            return expand(g, a, af, depth + 1)
+        ds = defs_of(x.id, fr)
+        if ds:
+            a, idx = ds[0]
+            v = a.value
+            if idx is None:
+                return expand(g, v, fr, depth + 1)
+            if isinstance(v, (_ast.Tuple, _ast.List)) and \
+                    idx < len(v.elts):
+                return expand(g, v.elts[idx], fr, depth + 1)
+            if isinstance(v, _ast.Call):
+                v2, f2 = value_of(g, v, fr)
+                if v2 is not v and isinstance(v2, (_ast.Tuple, _ast.List)) \
+                        and idx < len(v2.elts):
+                    return expand(g, v2.elts[idx], f2, depth + 1)
+        return x
+    if isinstance(x, _ast.Call):
+        v2, f2 = value_of(g, x, fr)
+        if v2 is not x:
+            return expand(g, v2, f2, depth + 1)
+    if isinstance(x, _ast.AST):
+        new = _copy.copy(x)
+        for field, val in _ast.iter_fields(x):
+            if isinstance(val, _ast.AST):
+                if isinstance(val, (_ast.expr_context, _ast.operator,
+                                    _ast.boolop, _ast.unaryop, _ast.cmpop)):
+                    continue
+                setattr(new, field, expand(g, val, fr, depth + 1))
+            elif isinstance(val, list):
+                setattr(new, field, [
+                    expand(g, v, fr, depth + 1)
+                    if isinstance(v, _ast.AST) and not isinstance(
+                        v, (_ast.expr_context, _ast.cmpop)) else v
+                    for v in val])
+        return new
+    return x
+
+
+def expand_text(g, x, fr):
+    import ast as _ast
+    try:
+        return _ast.unparse(expand(g, x, fr))
+    except Exception:
+        return _ast.unparse(x)
